@@ -27,6 +27,7 @@ ASSUMPTIONS = [
 ]
 EXHAUSTIVE = {'quick': False, 'thorough': False}
 PYOPT_KINDS = ('programs',)
+CLOCALE_KINDS = ('programs',)
 KNOWN_KEYS = {'nul-escape-before-digit', 'hex-escape'}
 
 
